@@ -86,6 +86,12 @@ class C04(ProgProp):
                 fw = [o for o in obs if o['who'] == 'comp' and o['port'] == port and o['ev'] == t[2]]
                 if len(fw) != 1 or fw[0]['disp'] != 1:
                     failed.append(f'{op}: client in-event not forwarded exactly once through the dispatcher {fw}')
+                ev = next(e for e in itf['events'] if e['name'] == t[2])
+                args = [int(x) for x in t[3:3 + len(ev['formals'])]] + [0] * max(0, len(ev['formals']) - len(t[3:]))
+                from harness.progprop import rewrite_args
+                r = parse_ret(term)
+                if r['args'] != rewrite_args(ev, args):
+                    failed.append(f'{op}: the component\'s out/inout values did not reach the calling client: {r["args"]}')
                 if t[2] == mc['claim']:
                     if parse_ret(term)['ret'] == grant_idx:
                         holder = cid
